@@ -4,6 +4,7 @@ package jobcontroller
 
 var verifHarnesses = map[string]func(){
 	"VerifH_C10_status":    VerifH_C10_status,
+	"VerifH_C10_decidedStopsRest": VerifH_C10_decidedStopsRest,
 	"VerifH_C11_L2_stable": VerifH_C11_L2_stable,
 	"VerifH_C08_create":    VerifH_C08_create,
 	"VerifH_C20_jobcontroller": VerifH_C20_jobcontroller,
